@@ -35,6 +35,8 @@ Inductive lab :=
 | LReqUpdate (u : updk)     (* ProcessRequests [update r] *)
 | LApiPause | LApiUnpause | LApiCancel | LApiUpdate    (* PauseResponse / UnpauseResponse / CancelResponse / UpdateResponse *)
 | LGate (g : gateres)       (* the block hook the executor is parked in returns *)
+| LGateHold (g : gateres)   (* the same, and if the executor finishes in this run its FinishTask call is held back *)
+| LFinish                   (* the held FinishTask call goes through (the loop handles finishTask) *)
 | LSend (ok : bool)         (* SendMsg of the message in flight returns; false = the peer is gone (queue shut down) *)
 | LHold | LRelease.         (* the only worker gets / finishes a task of another peer *)
 
@@ -73,6 +75,7 @@ Record state := mkState {
   tq : N;
   held : bool;
   gate : option bool;
+  fin : option fres;
   closed : bool;
   infl : option N;
   pend : option N;
@@ -83,25 +86,26 @@ Record state := mkState {
   n_net : N;
   n_fail : N }.
 
-Definition set_seen (v : bool) (s : state) : state := mkState v (ent s) (sig_pause s) (sig_upd s) (sig_err s) (tq s) (held s) (gate s) (closed s) (infl s) (pend s) (nprot s) (unprot s) (evs s) (n_done s) (n_net s) (n_fail s).
-Definition set_ent (v : option entry) (s : state) : state := mkState (seen s) v (sig_pause s) (sig_upd s) (sig_err s) (tq s) (held s) (gate s) (closed s) (infl s) (pend s) (nprot s) (unprot s) (evs s) (n_done s) (n_net s) (n_fail s).
-Definition set_sig_pause (v : bool) (s : state) : state := mkState (seen s) (ent s) v (sig_upd s) (sig_err s) (tq s) (held s) (gate s) (closed s) (infl s) (pend s) (nprot s) (unprot s) (evs s) (n_done s) (n_net s) (n_fail s).
-Definition set_sig_upd (v : bool) (s : state) : state := mkState (seen s) (ent s) (sig_pause s) v (sig_err s) (tq s) (held s) (gate s) (closed s) (infl s) (pend s) (nprot s) (unprot s) (evs s) (n_done s) (n_net s) (n_fail s).
-Definition set_sig_err (v : option errk) (s : state) : state := mkState (seen s) (ent s) (sig_pause s) (sig_upd s) v (tq s) (held s) (gate s) (closed s) (infl s) (pend s) (nprot s) (unprot s) (evs s) (n_done s) (n_net s) (n_fail s).
-Definition set_tq (v : N) (s : state) : state := mkState (seen s) (ent s) (sig_pause s) (sig_upd s) (sig_err s) v (held s) (gate s) (closed s) (infl s) (pend s) (nprot s) (unprot s) (evs s) (n_done s) (n_net s) (n_fail s).
-Definition set_held (v : bool) (s : state) : state := mkState (seen s) (ent s) (sig_pause s) (sig_upd s) (sig_err s) (tq s) v (gate s) (closed s) (infl s) (pend s) (nprot s) (unprot s) (evs s) (n_done s) (n_net s) (n_fail s).
-Definition set_gate (v : option bool) (s : state) : state := mkState (seen s) (ent s) (sig_pause s) (sig_upd s) (sig_err s) (tq s) (held s) v (closed s) (infl s) (pend s) (nprot s) (unprot s) (evs s) (n_done s) (n_net s) (n_fail s).
-Definition set_closed (v : bool) (s : state) : state := mkState (seen s) (ent s) (sig_pause s) (sig_upd s) (sig_err s) (tq s) (held s) (gate s) v (infl s) (pend s) (nprot s) (unprot s) (evs s) (n_done s) (n_net s) (n_fail s).
-Definition set_infl (v : option N) (s : state) : state := mkState (seen s) (ent s) (sig_pause s) (sig_upd s) (sig_err s) (tq s) (held s) (gate s) (closed s) v (pend s) (nprot s) (unprot s) (evs s) (n_done s) (n_net s) (n_fail s).
-Definition set_pend (v : option N) (s : state) : state := mkState (seen s) (ent s) (sig_pause s) (sig_upd s) (sig_err s) (tq s) (held s) (gate s) (closed s) (infl s) v (nprot s) (unprot s) (evs s) (n_done s) (n_net s) (n_fail s).
-Definition set_nprot (v : N) (s : state) : state := mkState (seen s) (ent s) (sig_pause s) (sig_upd s) (sig_err s) (tq s) (held s) (gate s) (closed s) (infl s) (pend s) v (unprot s) (evs s) (n_done s) (n_net s) (n_fail s).
-Definition set_unprot (v : N) (s : state) : state := mkState (seen s) (ent s) (sig_pause s) (sig_upd s) (sig_err s) (tq s) (held s) (gate s) (closed s) (infl s) (pend s) (nprot s) v (evs s) (n_done s) (n_net s) (n_fail s).
-Definition set_evs (v : list ev) (s : state) : state := mkState (seen s) (ent s) (sig_pause s) (sig_upd s) (sig_err s) (tq s) (held s) (gate s) (closed s) (infl s) (pend s) (nprot s) (unprot s) v (n_done s) (n_net s) (n_fail s).
-Definition set_n_done (v : N) (s : state) : state := mkState (seen s) (ent s) (sig_pause s) (sig_upd s) (sig_err s) (tq s) (held s) (gate s) (closed s) (infl s) (pend s) (nprot s) (unprot s) (evs s) v (n_net s) (n_fail s).
-Definition set_n_net (v : N) (s : state) : state := mkState (seen s) (ent s) (sig_pause s) (sig_upd s) (sig_err s) (tq s) (held s) (gate s) (closed s) (infl s) (pend s) (nprot s) (unprot s) (evs s) (n_done s) v (n_fail s).
-Definition set_n_fail (v : N) (s : state) : state := mkState (seen s) (ent s) (sig_pause s) (sig_upd s) (sig_err s) (tq s) (held s) (gate s) (closed s) (infl s) (pend s) (nprot s) (unprot s) (evs s) (n_done s) (n_net s) v.
+Definition set_seen (v : bool) (s : state) : state := mkState v (ent s) (sig_pause s) (sig_upd s) (sig_err s) (tq s) (held s) (gate s) (fin s) (closed s) (infl s) (pend s) (nprot s) (unprot s) (evs s) (n_done s) (n_net s) (n_fail s).
+Definition set_ent (v : option entry) (s : state) : state := mkState (seen s) v (sig_pause s) (sig_upd s) (sig_err s) (tq s) (held s) (gate s) (fin s) (closed s) (infl s) (pend s) (nprot s) (unprot s) (evs s) (n_done s) (n_net s) (n_fail s).
+Definition set_sig_pause (v : bool) (s : state) : state := mkState (seen s) (ent s) v (sig_upd s) (sig_err s) (tq s) (held s) (gate s) (fin s) (closed s) (infl s) (pend s) (nprot s) (unprot s) (evs s) (n_done s) (n_net s) (n_fail s).
+Definition set_sig_upd (v : bool) (s : state) : state := mkState (seen s) (ent s) (sig_pause s) v (sig_err s) (tq s) (held s) (gate s) (fin s) (closed s) (infl s) (pend s) (nprot s) (unprot s) (evs s) (n_done s) (n_net s) (n_fail s).
+Definition set_sig_err (v : option errk) (s : state) : state := mkState (seen s) (ent s) (sig_pause s) (sig_upd s) v (tq s) (held s) (gate s) (fin s) (closed s) (infl s) (pend s) (nprot s) (unprot s) (evs s) (n_done s) (n_net s) (n_fail s).
+Definition set_tq (v : N) (s : state) : state := mkState (seen s) (ent s) (sig_pause s) (sig_upd s) (sig_err s) v (held s) (gate s) (fin s) (closed s) (infl s) (pend s) (nprot s) (unprot s) (evs s) (n_done s) (n_net s) (n_fail s).
+Definition set_held (v : bool) (s : state) : state := mkState (seen s) (ent s) (sig_pause s) (sig_upd s) (sig_err s) (tq s) v (gate s) (fin s) (closed s) (infl s) (pend s) (nprot s) (unprot s) (evs s) (n_done s) (n_net s) (n_fail s).
+Definition set_gate (v : option bool) (s : state) : state := mkState (seen s) (ent s) (sig_pause s) (sig_upd s) (sig_err s) (tq s) (held s) v (fin s) (closed s) (infl s) (pend s) (nprot s) (unprot s) (evs s) (n_done s) (n_net s) (n_fail s).
+Definition set_fin (v : option fres) (s : state) : state := mkState (seen s) (ent s) (sig_pause s) (sig_upd s) (sig_err s) (tq s) (held s) (gate s) v (closed s) (infl s) (pend s) (nprot s) (unprot s) (evs s) (n_done s) (n_net s) (n_fail s).
+Definition set_closed (v : bool) (s : state) : state := mkState (seen s) (ent s) (sig_pause s) (sig_upd s) (sig_err s) (tq s) (held s) (gate s) (fin s) v (infl s) (pend s) (nprot s) (unprot s) (evs s) (n_done s) (n_net s) (n_fail s).
+Definition set_infl (v : option N) (s : state) : state := mkState (seen s) (ent s) (sig_pause s) (sig_upd s) (sig_err s) (tq s) (held s) (gate s) (fin s) (closed s) v (pend s) (nprot s) (unprot s) (evs s) (n_done s) (n_net s) (n_fail s).
+Definition set_pend (v : option N) (s : state) : state := mkState (seen s) (ent s) (sig_pause s) (sig_upd s) (sig_err s) (tq s) (held s) (gate s) (fin s) (closed s) (infl s) v (nprot s) (unprot s) (evs s) (n_done s) (n_net s) (n_fail s).
+Definition set_nprot (v : N) (s : state) : state := mkState (seen s) (ent s) (sig_pause s) (sig_upd s) (sig_err s) (tq s) (held s) (gate s) (fin s) (closed s) (infl s) (pend s) v (unprot s) (evs s) (n_done s) (n_net s) (n_fail s).
+Definition set_unprot (v : N) (s : state) : state := mkState (seen s) (ent s) (sig_pause s) (sig_upd s) (sig_err s) (tq s) (held s) (gate s) (fin s) (closed s) (infl s) (pend s) (nprot s) v (evs s) (n_done s) (n_net s) (n_fail s).
+Definition set_evs (v : list ev) (s : state) : state := mkState (seen s) (ent s) (sig_pause s) (sig_upd s) (sig_err s) (tq s) (held s) (gate s) (fin s) (closed s) (infl s) (pend s) (nprot s) (unprot s) v (n_done s) (n_net s) (n_fail s).
+Definition set_n_done (v : N) (s : state) : state := mkState (seen s) (ent s) (sig_pause s) (sig_upd s) (sig_err s) (tq s) (held s) (gate s) (fin s) (closed s) (infl s) (pend s) (nprot s) (unprot s) (evs s) v (n_net s) (n_fail s).
+Definition set_n_net (v : N) (s : state) : state := mkState (seen s) (ent s) (sig_pause s) (sig_upd s) (sig_err s) (tq s) (held s) (gate s) (fin s) (closed s) (infl s) (pend s) (nprot s) (unprot s) (evs s) (n_done s) v (n_fail s).
+Definition set_n_fail (v : N) (s : state) : state := mkState (seen s) (ent s) (sig_pause s) (sig_upd s) (sig_err s) (tq s) (held s) (gate s) (fin s) (closed s) (infl s) (pend s) (nprot s) (unprot s) (evs s) (n_done s) (n_net s) v.
 Definition init : state :=
-  mkState false None false false None 0 false None false None None 0 0 [] 0 0 0.
+  mkState false None false false None 0 false None None false None None 0 0 [] 0 0 0.
 
 Definition is_term (c : N) : bool := ((20 <=? c) && (c <=? 21)) || ((30 <=? c) && (c <=? 35)).   (* responsecode.go IsTerminal *)
 
@@ -171,12 +175,18 @@ Definition finish_task (c : cfg) (r : fres) (s : state) : state :=
          end
   end.
 
+(* queryexecutor.go ExecuteTask: qe.manager.FinishTask(task, pid, err) — a round trip into the loop.  With
+   `hold` the worker is parked just before it (fin := the result it carries): what the message queue's
+   notifications do to the entry meanwhile is handled by the loop first. *)
+Definition do_finish (c : cfg) (hold : bool) (r : fres) (s : state) : state :=
+  if hold then set_fin (Some r) s else finish_task c r s.
+
 (* queryexecutor.go executeQuery after runTraversal returned a non-pause error *)
-Definition finish_exec (c : cfg) (e : errk) (s : state) : state :=
+Definition finish_exec (c : cfg) (hold : bool) (e : errk) (s : state) : state :=
   match e with
-  | ENet | EReqCancel => finish_task c (FErr e) s                               (* ClearRequest; no status *)
-  | EApiCancel => finish_task c (FErr e) (transact c [OStatus 35] s)            (* RequestCancelled *)
-  | EHook => finish_task c (FErr e) (transact c [OStatus 32] s)                 (* RequestFailedUnknown *)
+  | ENet | EReqCancel => do_finish c hold (FErr e) s                               (* ClearRequest; no status *)
+  | EApiCancel => do_finish c hold (FErr e) (transact c [OStatus 35] s)            (* RequestCancelled *)
+  | EHook => do_finish c hold (FErr e) (transact c [OStatus 32] s)                 (* RequestFailedUnknown *)
   end.
 
 (* which ready channel the select takes: a total preference order over (pause, err, update) *)
@@ -225,14 +235,14 @@ Fixpoint check (fuel : nat) (ord : N) (s : state) (ext : bool) : cres * state * 
 
 (* runTraversal: next block (sendResponse -> checkForUpdates -> SendResponse -> block hook = parked), or
    traversal complete -> FinishRequest.  All blocks are present: RequestCompletedFull = 20. *)
-Definition exec_loop (c : cfg) (more : bool) (ord : N) (s : state) : state :=
+Definition exec_loop (c : cfg) (hold more : bool) (ord : N) (s : state) : state :=
   if more then
     match check 4 ord s false with
-    | (CErr e, s1, ext) => finish_exec c e (transact c (if ext then [OExt] else []) s1)
+    | (CErr e, s1, ext) => finish_exec c hold e (transact c (if ext then [OExt] else []) s1)
     | (CNil, s1, _) => set_gate (Some false) s1
     | (CPaused, s1, _) => set_gate (Some true) s1
     end
-  else finish_task c FNil (transact c [OStatus 20] s).
+  else do_finish c hold FNil (transact c [OStatus 20] s).
 
 (* server.go startTask/taskDataForKey, after the worker popped the task *)
 Definition start_task (c : cfg) (more : bool) (ord : N) (s : state) : state :=
@@ -243,7 +253,7 @@ Definition start_task (c : cfg) (more : bool) (ord : N) (s : state) : state :=
     | Completing => set_tq 0 s
     | _ =>
       let s1 := if e_started e then s else emit EvProcessing s in
-      exec_loop c more ord (set_tq 2 (set_ent (Some (mkEntry Running (e_uerr e) (e_uext e) true (e_neterr e))) s1))
+      exec_loop c false more ord (set_tq 2 (set_ent (Some (mkEntry Running (e_uerr e) (e_uext e) true (e_neterr e))) s1))
     end
   end.
 
@@ -335,7 +345,8 @@ Definition step_ret_m (c : cfg) (more : bool) (s0 : state) (l : label) : state *
     | None => (s, 1)
     | Some _ => (transact c [OExt; OPartial] s, 0)
     end
-  | LGate g =>
+  | LGate g | LGateHold g =>
+    let hold := match lb with LGateHold _ => true | _ => false end in
     match gate s with
     | None => (s, 0)
     | Some p =>
@@ -343,9 +354,9 @@ Definition step_ret_m (c : cfg) (more : bool) (s0 : state) (l : label) : state *
       let ops := (if p then [OStatus 15] else []) ++ [OBlock] ++ (match g with GPause => [OStatus 15] | _ => [] end) in
       let s1 := transact c ops (set_gate None s) in
       match g with
-      | GErr => (finish_exec c EHook s1, 0)
-      | GPause => (finish_task c FPaused s1, 0)
-      | GCont => if p then (finish_task c FPaused s1, 0) else (exec_loop c more ord s1, 0)
+      | GErr => (finish_exec c hold EHook s1, 0)
+      | GPause => (do_finish c hold FPaused s1, 0)
+      | GCont => if p then (do_finish c hold FPaused s1, 0) else (exec_loop c hold more ord s1, 0)
       end
     end
   | LSend ok =>
@@ -364,6 +375,11 @@ Definition step_ret_m (c : cfg) (more : bool) (s0 : state) (l : label) : state *
         let s3 := if is_term m then terminate s2 else s2 in
         (emit EvNetErr s3, 0)
     end
+  | LFinish =>
+    match fin s with
+    | None => (s, 0)
+    | Some r => (finish_task c r (set_fin None s), 0)
+    end
   | LHold => if held s || negb (gate_free s) || negb (tq s =? 0) then (s, 0) else (set_held true s, 0)
   | LRelease => if held s then (try_pop c more ord (set_held false s), 0) else (s, 0)
   end.
@@ -372,7 +388,7 @@ Definition step_ret_m (c : cfg) (more : bool) (s0 : state) (l : label) : state *
    the traversal (all present) *)
 Definition fstate := (state * N)%type.
 Definition consumes (s : state) (l : label) : bool :=      (* a parked block hook returns: that block is done *)
-  match fst l, gate s with LGate _, Some _ => true | _, _ => false end.
+  match fst l, gate s with LGate _, Some _ | LGateHold _, Some _ => true | _, _ => false end.
 Definition pos_after (s : state) (p : N) (l : label) : N := if consumes s l then p + 1 else p.
 Definition step_ret (c : cfg) (n : N) (fs : fstate) (l : label) : fstate * N :=
   let '(s, p) := fs in
@@ -389,7 +405,7 @@ Record obs := Build_obs {
   ob_st : N;            (* PeerState: 0 not listed, 1 Queued, 2 Running, 3 Paused, 4 CompletingSend *)
   ob_tq : N;            (* PeerState task queue: 0 none, 1 pending, 2 active *)
   ob_prot : N; ob_unprot : N;      (* ConnManager.Protect / Unprotect calls so far *)
-  ob_exec : N;          (* 0 = executor not in a block hook, k+1 = parked in the hook of block k *)
+  ob_exec : N;          (* 0 = executor idle, k+1 = parked in the hook of block k, 50 = parked before FinishTask *)
   ob_infl : N;          (* status of this request in the message inside SendMsg; 0 = nothing in flight *)
   ob_compl : N;         (* completed-listener notification during the step: 0 none, its status, 1 = more than one *)
   ob_canc : N; ob_net : N; ob_proc : N;   (* cancelled / network-error / request-processing notifications during the step *)
@@ -401,7 +417,7 @@ Definition count_ev (f : ev -> bool) (s : state) : N := N.of_nat (length (filter
 Definition observe (fs : fstate) (ret : N) : obs :=
   let '(s, p) := fs in
   Build_obs (st_code s) (tq s) (nprot s) (unprot s)
-    (match gate s with Some _ => p + 1 | None => 0 end) (match infl s with Some m => m | None => 0 end)
+    (match gate s with Some _ => p + 1 | None => match fin s with Some _ => 50 | None => 0 end end) (match infl s with Some m => m | None => 0 end)
     (match flat_map (fun e => match e with EvCompleted c => [c] | _ => [] end) (evs s) with [] => 0 | [c] => c | _ => 1 end)
     (count_ev (fun e => match e with EvCancelled => true | _ => false end) s)
     (count_ev (fun e => match e with EvNetErr => true | _ => false end) s)
@@ -444,10 +460,16 @@ Definition ev_eqb (a b : ev) : bool :=
   | EvCancelled, EvCancelled | EvNetErr, EvNetErr | EvProcessing, EvProcessing => true
   | _, _ => false
   end.
+Definition fres_eqb (a b : fres) : bool :=
+  match a, b with
+  | FNil, FNil | FPaused, FPaused => true
+  | FErr x, FErr y => errk_eqb x y
+  | _, _ => false
+  end.
 Definition state_eqb (a b : state) : bool :=
   Bool.eqb (seen a) (seen b) && option_eqb entry_eqb (ent a) (ent b) && Bool.eqb (sig_pause a) (sig_pause b) &&
   Bool.eqb (sig_upd a) (sig_upd b) && option_eqb errk_eqb (sig_err a) (sig_err b) && (tq a =? tq b) &&
-  Bool.eqb (held a) (held b) && option_eqb Bool.eqb (gate a) (gate b) && Bool.eqb (closed a) (closed b) &&
+  Bool.eqb (held a) (held b) && option_eqb Bool.eqb (gate a) (gate b) && option_eqb fres_eqb (fin a) (fin b) && Bool.eqb (closed a) (closed b) &&
   option_eqb N.eqb (infl a) (infl b) && option_eqb N.eqb (pend a) (pend b) && (nprot a =? nprot b) && (unprot a =? unprot b) &&
   list_eqb ev_eqb (evs a) (evs b) && (n_done a =? n_done b) && (n_net a =? n_net b) && (n_fail a =? n_fail b).
 Definition fstate_eqb (a b : fstate) : bool := state_eqb (fst a) (fst b) && (snd a =? snd b).
@@ -496,8 +518,10 @@ Definition mon_step (m : mstate) (lo : lab * obs) : option mstate :=
   let m' := mkM seen' (seen' && (ob_st o =? 0)) (m_compl m + ncompl) (m_canc m + ob_canc o) (m_net m + ob_net o) (Some o) in
   let once_ok := (m_compl m' + m_canc m' <=? 1) in
   (* retired: at rest and not paused => not listed, and some outcome was reported *)
+  (* no task of a response that is gone stays active or pending once the executor is out of it *)
+  let task_ok := negb (seen' && (ob_st o =? 0) && (ob_exec o =? 0)) || (ob_tq o =? 0) in
   let rest_ok := negb (seen' && quiescent_obs o) || ((ob_st o =? 0) && (1 <=? m_compl m' + m_canc m' + m_net m')) in
-  if compl_ok && net_ok && prot_ok && gone_ok && once_ok && rest_ok then Some m' else None.
+  if compl_ok && net_ok && prot_ok && gone_ok && once_ok && task_ok && rest_ok then Some m' else None.
 
 Fixpoint mon_run (m : mstate) (tr : list (lab * obs)) : bool :=
   match tr with
